@@ -4,6 +4,7 @@ import Claripy.AST.Meta
 import Claripy.AST.Subst
 import Claripy.AST.Truth
 import Claripy.AST.ACNorm
+import Claripy.AST.Bits
 /-! S-expression reader/printer and the `ev` / `fold` / `rules` requests of the line protocol. -/
 namespace Driver.Expr
 open Claripy.AST
@@ -116,6 +117,13 @@ def handleAc (toks : List String) : String :=
     | some k, some w, _ => if acEquiv k w (.app op args) rhs then "1" else "0"
     | _, _, some k => if bcEquiv k (.app op args) rhs then "1" else "0"
     | _, _, _ => "bad-op"
+  | _, _ => "bad-op"
+
+/-- `bits <lhs> | <rhs>` : is `lhs ⇒ rhs` a rewrite that only rearranges bits (Concat/Extract/ZeroExt/SignExt)? -/
+def handleBits (toks : List String) : String :=
+  let (pre, post) := toks.span (· ≠ "|")
+  match parseExpr pre, parseExpr (post.drop 1) with
+  | some lhs, some rhs => if bitsEquiv lhs rhs then "1" else "0"
   | _, _ => "bad-op"
 
 /-- `meta <sexpr>` : width / variables / depth / symbolic as the model computes them -/
